@@ -12,8 +12,7 @@ Driver for family `ilu` (C15): the property's clauses evaluated on the outputs o
   * A's index arrays byte-identical on exit (MC64 permutation undone), A's values untouched when
     equed = 'N', B untouched when equed = 'N';
   * X bit-identical to an independent [sdcz]gstrs on the returned factors (with the driver's scaling
-    steps), padding rows of X untouched; no solve (X untouched) when nrhs = 0 or PivotGrowth with
-    info > 0;
+    steps), padding rows of X untouched; X untouched when nrhs = 0;
   * dropping off (ILU_DropRule = NODROP, or DROP_BASIC with tolerance 0) and info = 0:
     |Pr*A_out*Pc - L*U| <= gamma(n+2) |L||U| and the documented system op(A) X = B is solved within
     gamma(4n+5) (|L||U|)|X| + gamma(n+1)|B| — exact rationals.
@@ -94,7 +93,7 @@ def handleG (o : Ops K) (c : Case) : Res := Id.run do
     return Res.propFalse s!"{call}: equed=N but B changed" tags
   -- X
   let xRaw := c.raw "X"; let xinRaw := c.raw "Xin"; let x2Raw := c.raw "X2"
-  let solved := nrhs > 0 && !(c.pNat "pivgrowth" == 1 && info > 0)
+  let solved := nrhs > 0   -- replaced pivots (0 < info <= n) are a successful outcome: the solve is performed
   if let some k := (List.range xRaw.size).find? (fun k => (k / w) % ldx ≥ n && xRaw[k]! != xinRaw.getD k 0) then
     return Res.propFalse s!"{call}: padding row {(k / w) % ldx} of X was written" tags
   if !solved then
@@ -120,7 +119,7 @@ def handleG (o : Ops K) (c : Case) : Res := Id.run do
     for i in List.range n do
       for j in List.range n do
         let r := at2 Ad i j - at2 LU permr[i]! permc[j]!
-        if o.cmax r > g0 * at2r LUa permr[i]! permc[j]! then
+        if o.cmax r > g0 * at2r LUa permr[i]! permc[j]! + uflow (8 * n + 16) dbl then
           return Res.propFalse s!"{call}: dropping is off and no pivot was replaced, but (Pr*A*Pc - L*U) at A({i},{j}) exceeds gamma(n+2)|L||U|" tags
     cls := "tolerance"
     -- documented system on the equilibrated data
@@ -148,7 +147,7 @@ def handleG (o : Ops K) (c : Case) : Res := Id.run do
           let bd := g1 * (List.range n).foldl (fun acc k => acc + opAa i k * o.mag (xe k)) 0 + g2 * o.mag (bo.getD (jr * ldb + i) default)
           -- only when no unscaling took place is X itself the solution of the equilibrated system
           if (List.range n).all (fun k => sc k == 1) then
-            if o.cmax rs > bd then
+            if o.cmax rs > bd + uflow (16 * n + 32) dbl * (List.range n).foldl (fun acc k => acc + opAa i k) (1 : Rat) then
               if nr && conjd && o.cplx then
                 return Res.propFalse s!"{call}: Stype=NR Trans=CONJ: X solves the transposed system, not the conjugate-transposed one (row {i})" tags
               else
